@@ -181,6 +181,10 @@ func (env *SpecEnv) resolveType(e ast.Expr) types.Type {
 		}
 	case *ast.ParenExpr:
 		return env.resolveType(x.X)
+	case *ast.StructType:
+		if x.Fields == nil || len(x.Fields.List) == 0 {
+			return types.NewStruct(nil, nil)
+		}
 	case *ast.InterfaceType:
 		return types.NewInterfaceType(nil, nil)
 	case *ast.Ellipsis:
@@ -193,6 +197,12 @@ func (env *SpecEnv) resolveType(e ast.Expr) types.Type {
 }
 
 func (env *SpecEnv) ghostType(e ast.Expr) types.Type {
+	// ref(map[K]V): a reference to a program map (not a ghost array)
+	if ce, ok := e.(*ast.CallExpr); ok && len(ce.Args) == 1 {
+		if id, ok := ce.Fun.(*ast.Ident); ok && id.Name == "ref" {
+			return env.resolveType(ce.Args[0])
+		}
+	}
 	t := env.resolveType(e)
 	if m, ok := t.(*types.Map); ok {
 		ghostMapTypes[m] = true
@@ -1280,6 +1290,20 @@ func (c *ExecCtx) runGhostAnchors(st *State, s ast.Stmt, when string) {
 					}
 				}
 			}
+		case (strings.HasPrefix(an, "continue") || strings.HasPrefix(an, "break")) && when == "before":
+			// continue / break / continue(Label) / break(Label)
+			bs, ok := s.(*ast.BranchStmt)
+			if !ok {
+				continue
+			}
+			want := bs.Tok.String()
+			if bs.Label != nil {
+				want += "(" + bs.Label.Name + ")"
+			}
+			if an == want {
+				g.used = true
+				c.execGhost(st, g, s.Pos())
+			}
 		case strings.HasPrefix(an, "inc(") && when == "after":
 			target := strings.TrimSuffix(strings.TrimPrefix(an, "inc("), ")")
 			if ids, ok := s.(*ast.IncDecStmt); ok && exprString(ids.X) == target {
@@ -1292,7 +1316,7 @@ func (c *ExecCtx) runGhostAnchors(st *State, s ast.Stmt, when string) {
 				for _, l := range as.Lhs {
 					if exprString(l) == target {
 						g.used = true
-						c.execGhost(st, g, s.Pos())
+						c.execGhost(st, g, s.End())
 					}
 				}
 			}
